@@ -96,7 +96,8 @@ CLAIMS = {
     "C12": dict(
         text="sqrt, log2, ln, exp, pow, powi, sin, cos, tan recorded under both build profiles on 14 layouts and 6 widening pairs with "
              "operands at the extremes (min, max, +-1 ulp, reciprocal-overflow edge, exponents up to i32::MIN/MAX); TLC requires outcome "
-             "kind Ok/Err (no panic, no exhausted iteration budget), Err for undefined requests, and a normal return of sin/cos/tan inside "
+             "kind Ok/Err (no panic, no exhausted iteration budget), Err for undefined requests and for exp / pow / powi results that clearly do "
+             "not fit (beyond the maximum by more than the error C15 allows), and a normal return of sin/cos/tan inside "
              "the stated angle domain (the tan domain is decided with the specification's own sin/cos reference).",
         technique="TLA+ trace validation with TLC (impl->spec), both build profiles, loop-budget hook", design_ref="6/C12"),
     "C13": dict(
@@ -110,7 +111,9 @@ CLAIMS = {
         technique="TLA+ trace validation with TLC (impl->spec), high-precision reference arithmetic written in TLA+", design_ref="6/C14"),
     "C15": dict(
         text="exp / pow / powi results validated by TLC: e^t by Taylor series and ten squarings at 200 bits, x^y = exp(y ln x), exact integer "
-             "x^n; the property's relative+absolute bounds, the conventions 0^y, x^0, x^1 and the truncated-reciprocal clause of powi.",
+             "x^n; the property's relative+absolute bounds, the conventions 0^y, x^0, x^1 and the truncated-reciprocal clause of powi. "
+             "Known finding pow_ln_resolution (pow with |y| >= 2^(F-3): the result follows the exact propagation of ln's 8-ulp error, which "
+             "exceeds the first-order term of the bound) is a named deviation accepted only inside that exactly propagated band.",
         technique="TLA+ trace validation with TLC (impl->spec), high-precision reference arithmetic written in TLA+", design_ref="6/C15"),
     "C16": dict(
         text="sin / cos / tan results validated by TLC against Taylor-series references at 200 bits after reduction modulo 2 pi (pi from "
